@@ -1,4 +1,5 @@
-"""L3 unit for C14 / C36: a for-loop over a variable typed `set` (Optimize.IterationTransform._transform_set_iteration).
+"""L3 unit for C14 / C36: a for-loop over a variable typed `set` (Optimize.IterationTransform._transform_set_iteration), and
+`for i, x in enumerate(l)` over a variable typed `list` (_transform_enumerate_iteration: the None check of the list it hands to the loop).
 
 Subject: the C function the working-tree compiler emits for
     cdef int iter_set(set s, list l) except -1:
@@ -26,6 +27,11 @@ cdef int iter_set(set s, list l) except -1:
 
 cdef int iter_frozenset(frozenset s, list l) except -1:
     for x in s:
+        l.append(x)
+    return 0
+
+cdef int enum_list(list s, list l) except -1:
+    for i, x in enumerate(s):
         l.append(x)
     return 0
 """
@@ -64,6 +70,17 @@ class SetIterNext:
         return CV(node_type(n), r)
 
 
+class ListItemRef:
+    """__Pyx_PyList_GET_ITEM_REF(l, i, sharing): a new reference to item i (NULL with an exception when the list shrank)"""
+    def apply(self, ex, st, args, n):
+        from dv.cfe import Ptr, node_type, mark_nullable
+        r = ex.fresh("list_item_ref")
+        e2 = ex.fresh("err_after_item_ref")
+        st.path.append(And(r >= 0, Implies(r >= 1, e2 == st.err), Implies(r == 0, e2 != 0)))
+        st.err = e2
+        return Ptr(node_type(n), "pyobj", mark_nullable(r))
+
+
 class ListAppend:
     def apply(self, ex, st, args, n):
         from dv.cfe import CV, node_type
@@ -84,7 +101,7 @@ def _post(e):
 def _native(model, ob=None):
     import os
     import subprocess
-    text = CATALOGUE + "\ndef py_iter_set(s):\n    l = []\n    iter_set(s, l)\n    return l\ndef py_iter_frozenset(s):\n    l = []\n    iter_frozenset(s, l)\n    return l\n"
+    text = CATALOGUE + "\ndef py_iter_set(s):\n    l = []\n    iter_set(s, l)\n    return l\ndef py_iter_frozenset(s):\n    l = []\n    iter_frozenset(s, l)\n    return l\ndef py_enum_list(s):\n    l = []\n    enum_list(s, l)\n    return l\n"
     try:
         ctext, cfile = cextract.compile_pyx(text, name="dvsetiter")
     except Exception as ex:
@@ -95,7 +112,7 @@ def _native(model, ob=None):
     if p.returncode != 0:
         return {"confirmed": False, "note": "build failed " + p.stderr[-300:]}
     code = ("import sys; sys.path.insert(0, %r); import dvsetiter as m\nbad = []\n"
-            "for f in (m.py_iter_set, m.py_iter_frozenset):\n"
+            "for f in (m.py_iter_set, m.py_iter_frozenset, m.py_enum_list):\n"
             "    try: bad.append((f.__name__, 'returned', f(None)))\n"
             "    except TypeError: pass\n"
             "    except Exception as e: bad.append((f.__name__, type(e).__name__, str(e)))\n"
@@ -110,12 +127,20 @@ def _native(model, ob=None):
 def units(tier):
     us = []
     callees = {"__Pyx_set_iterator": SetIterator(), "__Pyx_set_iter_next": SetIterNext(), "__Pyx_PyList_Append": ListAppend()}
-    for name in ("iter_set", "iter_frozenset"):
-        u = L3Unit("L3setiter.%s" % name, {"C14": None, "C36": ["pre", "ub", "subset"]}, CATALOGUE, name, pyobjs=("s", "l"), callees=callees,
+    callees["__Pyx_PyList_GET_ITEM_REF"] = ListItemRef()
+    for name in ("iter_set", "iter_frozenset", "enum_list"):
+        # enum_list: the loop is cut by the trivial invariant, so the arithmetic of its (havocked) counters is NOT part of the claim - only the
+        # preconditions of the calls (what the loop hands to PyList_GET_SIZE) and the postcondition are
+        props = {"C14": None, "C36": ["pre", "ub", "subset"]} if name != "enum_list" else {"C14": ["pre", "post", "subset"], "C36": ["pre", "subset"]}
+        u = L3Unit("L3setiter.%s" % name, props, CATALOGUE, name, pyobjs=("s", "l"), callees=callees,
                    requires=[("kernel: the list argument is a list (not None); the set argument may be None", lambda e: e.l != O.NONE_OBJECT)],
                    ensures=[("a None argument ends in an exception; the result is -1 exactly when an exception is pending", _post)],
-                   options={"merge": False, "model_none": True, "invariants": {0: _Trivial()}, "unroll": {1: 2, 2: 2, 3: 2}},
+                   options={"merge": False, "model_none": True, "invariants": {0: _Trivial()}, "unroll": {1: 2, 2: 2, 3: 2},
+                            # (declared in the module's own preamble: DefinitelyUnique, OwnStrongReference, FunctionArgument, SharedReference)
+                            "enum_values": {"__Pyx_ReferenceSharing_OwnStrongReference": 1, "__Pyx_ReferenceSharing_DefinitelyUnique": 0,
+                                            "__Pyx_ReferenceSharing_FunctionArgument": 2, "__Pyx_ReferenceSharing_SharedReference": 3}},
                    subject={"mechanism": "Optimize.IterationTransform._transform_set_iteration (None check of the iterated object)"})
+        u.defines = ("NDEBUG",)          # release configuration of Python.h: PyList_GET_ITEM's cast macro is then free of assert()
         u.exec_cls = O.CExecPyObj
         u.replay = _native
         u.concrete_search = lambda ob, regions=(): _native({}, ob)
